@@ -1,5 +1,5 @@
 """C14 - displayed object and connection labels are unambiguous and work as matchers."""
-import itertools, string
+import itertools, re, string
 from .. import env, histgen, model, session, wire
 from ..runner import Prop, Stage, Result
 
@@ -416,6 +416,76 @@ class SinkNames(Stage):
         return res
 
 
+class ConnectionCommandLabels(Stage):
+    """sessions with very many connections (short-lived clients add up): every label, also one that reads like a word of the command
+    language (the 1000th connection is ALL), selects exactly that connection when given to `connection` and to `list LABEL:`"""
+    name = 'connection-command-labels'
+    KEYWORDS = ['all']        # words with a meaning of their own after `connection`
+
+    def examples(self, tier):
+        return 12 if tier == "quick" else 14 * 12
+
+    def gen(self, d, tier):
+        n = d.choice([d.int(27, 80), d.int(700, 760), d.int(1000, 1060), d.int(1000, 1060)])
+        picks = {0, n - 1} | {d.int(0, n - 1) for _ in range(d.int(4, 12))}
+        for i in range(n):
+            if model.letters(i, caps=True).lower() in self.KEYWORDS:
+                picks.add(i)
+                picks.add(i - 1)
+        picks = sorted(i for i in picks if 0 <= i < n)
+        return dict(n=n, messages=[[i, d.int(1, 3)] for i in picks], closed=[i for i in picks if d.chance(0.3)])
+
+    def execute(self, case):
+        from core import wl
+        from .c04 import SinkExec
+        res = Result()
+        res.evals = 0
+        ex = SinkExec()
+        n = case['n']
+        for i in range(n):
+            ex.cm.open_connection(i * 0.001, 'c%d' % i, [None, True, False][i % 3])
+        t = 10.0
+        count = {}
+        for i, k in case['messages']:
+            for j in range(k):
+                t += 0.5
+                ex.cm.message('c%d' % i, wl.Message(t, wl.UnresolvedObject(1, 'wl_display'), True, 'sync', (wl.Arg.Object(wl.UnresolvedObject(3 + j, 'wl_callback'), True),)))
+            count[model.letters(i, caps=True)] = k
+        for i in case['closed']:
+            ex.cm.close_connection(t + 1, 'c%d' % i)
+        names = [c.name() for c in ex.cm.connections()]
+        if names != [model.letters(i, caps=True) for i in range(n)]:
+            res.bad('connection-names', 'names differ from A, B, ... at %r' % [(i, a) for i, a in enumerate(names) if a != model.letters(i, caps=True)][:3])
+            return res
+        line = re.compile(r'^\s*-?\d+\.\d+ (\w+): ', re.M)
+
+        def listed(cmds):
+            n0 = len(ex.out.buffer)
+            for c in cmds:
+                ex.ctl.process_command(c)
+            got = {}
+            for lab in line.findall(ex.out.buffer[n0:]):
+                got[lab] = got.get(lab, 0) + 1
+            return got
+        got = listed(['connection all', 'list'])
+        if got != count:
+            res.bad('list-of-all-connections', 'all connections selected: list shows %r, sent %r' % (got, count))
+        for lab, k in sorted(count.items()):
+            res.evals += 2
+            got = listed(['connection ' + lab, 'list'])
+            if got != {lab: k}:
+                res.bad('connection-command-selects-wrong', '`connection %s` then `list` shows %r, that connection has %d messages (session of %d connections)' % (lab, got, k, n))
+                break
+            got = listed(['connection all', 'list %s:' % lab])
+            if got != {lab: k}:
+                res.bad('connection-label-selects-wrong', '`list %s:` shows %r, that connection has %d messages (session of %d connections)' % (lab, got, k, n))
+                break
+        res.nontrivial = n > 26
+        res.label('connections>=1000' if n >= 1000 else 'connections>=700' if n >= 700 else 'connections<100')
+        res.sample = dict(n=n, labels=sorted(count))
+        return res
+
+
 class C14(Prop):
     id = 'C14'
     rule = ('letters-exhaustive: every index 0..475253 (all ids of one to four letters) in chunks, against an independent shortlex enumeration '
@@ -425,9 +495,9 @@ class C14(Prop):
             'incarnations or is in use on >= 2 connections (enumeration chunks all count); sink-names: open/message/close sequences on the '
             'connection-id interface, names distinct and `X:` exact (non-trivial = >= 3 connections with a re-open); labels-in-sessions: scripted sessions in which connections '
             'are selected / deselected while messages stream in and labels are given to filter / breakpoint commands, then `list <label>` is compared with the '
-            'model\'s mention set over that connection\'s own record (non-trivial = >= 2 listings checked after a selection and a label filter); distinct by SHA-1 of the case.')
+            'model\'s mention set over that connection\'s own record (non-trivial = >= 2 listings checked after a selection and a label filter); connection-command-labels: 27..1060 connections opened on the connection-id interface, `connection LABEL` + `list` and `list LABEL:` must show exactly that connection\'s messages for sampled labels, the first, the last and any label that reads like a keyword of the connection command (ALL = the 1000th); distinct by SHA-1 of the case.')
     assumptions = ['reference model of DESIGN appendix B decides which messages are on / mention / create / destroy an object']
-    stages = [Letters(), LettersFar(), Labels(), LabelsInSessions(), ManyConnections(), SinkNames()]
+    stages = [Letters(), LettersFar(), Labels(), LabelsInSessions(), ManyConnections(), SinkNames(), ConnectionCommandLabels()]
 
 
 PROP = C14()
